@@ -23,6 +23,7 @@ Added after the seeding rounds (DESIGN.md 6.6-6.8):
 """
 import ast
 LINT_EXTRA_FILES = ("ahrs/common/orientation.py",)      # acc2q / am2q / ecompass helpers the filters start from
+from sa.desugar import desugared
 from sa.callgraph import call_sites, reachable, local_types
 from sa.flow import Alias
 from sa.model import stmt_text
@@ -269,6 +270,7 @@ def protocol(chk, prog, cls, methods):
         chk.error("PROTOCOL: %s has no _compute_all" % cls.name)
         return
     chk.touch(batch)
+    batch = desugared(batch)       # enumerate / zip sample loops in index form
     n = 0
     own_attrs = {x.attr for g in cls.methods.values() if g.name in ("__init__",) or g.name.startswith("_set") for x in ast.walk(g.node)
                  if isinstance(x, ast.Attribute) and isinstance(x.ctx, ast.Store) and isinstance(x.value, ast.Name) and x.value.id == "self"}
